@@ -1072,3 +1072,81 @@ Proof.
   - apply adv_catch_cands_static.
   - apply adv_catch_cands_param.
 Qed.
+
+Lemma leaf_none cs : (forall k, In k cs -> toks k <> []) -> leaf cs = None.
+Proof.
+  unfold leaf. induction cs as [|k cs IH]; intros H; simpl; auto.
+  destruct (toks k) eqn:E; [exfalso; apply (H k); auto; left; reflexivity|].
+  apply IH. intros k' Hk'. apply H. right; exact Hk'.
+Qed.
+
+Lemma cands_of_toks pre x k : pwf pre x -> In k (cands_of x) -> toks k <> [].
+Proof.
+  intros Hwf Hin. destruct (pwf_tokens _ _ Hwf) as (t & kt & Ht & _ & _).
+  rewrite cands_of_tokens, Ht in Hin. unfold cands in Hin. apply in_map_iff in Hin.
+  destruct Hin as (k0 & <- & _). simpl. discriminate.
+Qed.
+
+Lemma adv_own c r : adv_static c (own r) = [] /\ adv_param (own r) = [] /\ adv_catch (own r) = [].
+Proof. destruct r; simpl; auto. Qed.
+
+(* one step of S on the candidates below a node whose key has been consumed *)
+Lemma select_below pre f r ch c p' vals :
+  NoDup (heads ch) -> (forall x, In x ch -> pwf pre x) ->
+  select (S f) (below r ch) (c :: p') 0 vals =
+  orelse (if sbyte c then
+            match first_child c ch with Some x => select f (tl_cands x) p' 0 vals | None => None end
+          else None)
+    (fun _ =>
+       match first_child "{" ch with
+       | Some y => match seg is_slash (c :: p') with
+                   | [] => None
+                   | v => select f (tl_cands y) (skipn (List.length v) (c :: p')) 0 (v :: vals)
+                   end
+       | None => None
+       end).
+Proof.
+  intros Hnd Hch. cbn [select]. cbn [Nat.eqb negb pred].
+  destruct (adv_own c r) as (Ho1 & Ho2 & Ho3).
+  assert (Hcatch : adv_catch (below r ch) = []).
+  { unfold below. rewrite adv_catch_app, Ho3, adv_catch_flat. simpl. apply flat_map_nil.
+    intros x Hx. eapply adv_catch_child; eauto. }
+  assert (Hparam : adv_param (below r ch) = match first_child "{" ch with Some y => tl_cands y | None => [] end).
+  { unfold below. rewrite adv_param_app, Ho2, adv_param_flat. simpl. apply flat_map_first; auto.
+    intros x Hx. eapply adv_param_child; eauto. }
+  rewrite Hcatch, Hparam.
+  change (seg (fun x : ascii => Ascii.eqb x "/") (c :: p')) with (seg is_slash (c :: p')).
+  assert (HB : match match first_child "{" ch with Some y => tl_cands y | None => [] end with
+               | [] => None
+               | c0 :: l =>
+                   match seg is_slash (c :: p') with
+                   | [] => None
+                   | _ :: _ => select f (c0 :: l) (skipn (List.length (seg is_slash (c :: p'))) (c :: p'))
+                                 (0 - List.length (seg is_slash (c :: p'))) (seg is_slash (c :: p') :: vals)
+                   end
+               end =
+               match first_child "{" ch with
+               | Some y => match seg is_slash (c :: p') with
+                           | [] => None
+                           | v => select f (tl_cands y) (skipn (List.length v) (c :: p')) 0 (v :: vals)
+                           end
+               | None => None
+               end).
+  { destruct (first_child "{" ch) as [y|]; [|reflexivity].
+    destruct (seg is_slash (c :: p')) as [|a l0].
+    - destruct (tl_cands y); reflexivity.
+    - replace (0 - List.length (a :: l0)) with 0 by lia.
+      destruct (tl_cands y) eqn:E; [rewrite select_nil; reflexivity|reflexivity]. }
+  unfold orelse at 2.
+  assert (HC : forall (x : option (bytes * list bytes)), match x with Some _ => x | None => None end = x)
+    by (intros [?|]; reflexivity).
+  rewrite HC, HB. clear HB HC.
+  destruct (sbyte c) eqn:Es.
+  - destruct (sbyte_split c Es) as [-> ->]. cbn [orb].
+    assert (Hstatic : adv_static c (below r ch) = match first_child c ch with Some x => tl_cands x | None => [] end).
+    { unfold below. rewrite adv_static_app, Ho1, adv_static_flat. simpl. apply flat_map_first; auto.
+      intros x Hx. eapply adv_static_child; eauto. }
+    rewrite Hstatic. destruct (first_child c ch) as [x|]; [|reflexivity].
+    rewrite match_nil_select. reflexivity.
+  - rewrite (sbyte_false c Es). reflexivity.
+Qed.
